@@ -393,21 +393,28 @@ def parse_head(buf: bytes, start: int = 0) -> Optional[dict]:
 
 def split_chunked(buf: bytes, start: int) -> dict:
     """Chunk records of a chunked body that begins at `start`.
-    -> {"ok": complete and well formed, "recs": [[size_line_len, size], ...] (incl. the last-chunk with size 0),
+    -> {"ok": complete and well formed, "short": not complete but a well-formed prefix (the bytes just end),
+        "recs": [[size_line_len, size], ...] (incl. the last-chunk with size 0),
         "trailer": bytes of the trailer section incl. its final CRLF, "end": offset after the body,
         "data": the de-chunked bytes}"""
     p = start
     recs: List[List[int]] = []
     data = bytearray()
     n = len(buf)
+
+    def out(ok: bool, short: bool, trailer: int, end: int) -> dict:
+        return {"ok": ok, "short": short, "recs": recs, "trailer": trailer, "end": end, "data": bytes(data)}
+    hexd = b"0123456789abcdefABCDEF"
     while True:
         le = buf.find(b"\r\n", p)
         if le < 0:
-            return {"ok": False, "recs": recs, "trailer": 0, "end": p, "data": bytes(data)}
+            rest = buf[p:]
+            clean = all(c in hexd for c in rest.rstrip(b"\r")) and rest.count(b"\r") <= 1
+            return out(False, clean, 0, p)
         line = buf[p:le]
         hexpart = line.split(b";", 1)[0]
-        if not hexpart or any(c not in b"0123456789abcdefABCDEF" for c in hexpart):
-            return {"ok": False, "recs": recs, "trailer": 0, "end": p, "data": bytes(data)}
+        if not hexpart or any(c not in hexd for c in hexpart):
+            return out(False, False, 0, p)
         size = int(hexpart, 16)
         recs.append([len(line), size])
         p = le + 2
@@ -417,12 +424,15 @@ def split_chunked(buf: bytes, start: int) -> dict:
             while True:
                 te = buf.find(b"\r\n", q)
                 if te < 0:
-                    return {"ok": False, "recs": recs, "trailer": 0, "end": p, "data": bytes(data)}
+                    return out(False, True, 0, p)
                 if te == q:
-                    return {"ok": True, "recs": recs, "trailer": te + 2 - p, "end": te + 2, "data": bytes(data)}
+                    return out(True, False, te + 2 - p, te + 2)
                 q = te + 2
-        if n < p + size + 2 or buf[p + size:p + size + 2] != b"\r\n":
-            return {"ok": False, "recs": recs, "trailer": 0, "end": p, "data": bytes(data)}
+        if n < p + size + 2:
+            recs.pop()
+            return out(False, buf[p + size:] in (b"", b"\r"), 0, p)
+        if buf[p + size:p + size + 2] != b"\r\n":
+            return out(False, False, 0, p)
         data += buf[p:p + size]
         p += size + 2
 
